@@ -43,7 +43,7 @@ PROVED = ('for every swarm size, URI list (with repetitions), argument dictionar
           'touching a member; over any history of actions on one swarm with re-used / aliased argument dictionaries the '
           'caller\'s objects are unchanged and every member gets a fresh list = own connection + own entry; over any '
           'history of runs in one process the error chained by run k is one of run k\'s errors (fresh reporter per run); '
-          'a shared error list is refuted.')
+          'a shared error list is refuted; the members an action runs for do not depend on the per-member link state.')
 NOT_PROVED = ('what open_link/close_link do inside SyncCrazyflie (C02); byte-code level preemption inside one statement; '
               'the helper actions built on parallel_safe (get_estimated_positions, reset_estimators).')
 
@@ -1364,6 +1364,154 @@ def check_helpers(case, impl=None):
     return None
 
 
+
+# ------------------------------------------------------------------------------------------ per-member link state (Wave 12)
+def gen_linkstate(rng, n=None):
+    n = rng.randrange(1, 6) if n is None else n
+    uris = rng.sample(range(1, 40), n)
+    events = []
+    for _ in range(rng.randrange(1, 4)):
+        k = rng.random()
+        u = rng.choice(uris)
+        events.append(['down', u] if k < 0.6 else ['member_close', u] if k < 0.8 else ['up', u])
+    if rng.random() < 0.1:
+        events = [['down', u] for u in uris]                 # every link lost
+    ad = None if rng.random() < 0.4 else {u: [rng.randrange(100) for _ in range(rng.randrange(0, 3))] for u in uris}
+    pf = rng.choice([0.0, 0.0, 0.3, 1.0])
+    return {'op': 'linkstate', 'uris': uris, 'events': events, 'call': rng.choice(['sequential', 'parallel', 'parallel_safe', 'parallel_safe']),
+            'failing': [u for u in uris if rng.random() < pf], 'argdict': ad}
+
+
+def run_linkstate(case):
+    import cflib.crazyflie.swarm as sw
+    lock = threading.Lock()
+    calls = []
+    errs = {}
+
+    class M:
+        def __init__(self, uri, inst):
+            self.uri, self.inst, self.link = uri, inst, False
+
+        def open_link(self):
+            self.link = True
+
+        def close_link(self):
+            self.link = False
+
+        def is_link_open(self):
+            return self.link
+
+    class F:
+        def __init__(self):
+            self.k = 0
+
+        def construct(self, uri):
+            self.k += 1
+            return M(uri, self.k - 1)
+
+    s = sw.Swarm(case['uris'], factory=F())
+    members = list(s._cfs.values())
+    pos = {m.uri: k for k, m in enumerate(members)}
+    by_uri = {m.uri: m for m in members}
+    failing = set(case['failing'])
+
+    def action(scf, *a):
+        with lock:
+            calls.append([scf.inst, list(a)])
+        if scf.uri in failing:
+            e = _Err(pos[scf.uri])
+            errs[id(e)] = (e, pos[scf.uri])
+            raise e
+    s.open_links()
+    for ev in case['events']:
+        m = by_uri[ev[1]]
+        if ev[0] == 'down':
+            m.link = False                                   # Crazyflie.disconnected fired: the link is gone
+        elif ev[0] == 'up':
+            m.link = True
+        else:
+            m.close_link()
+    ad = case.get('argdict')
+    ad = None if ad is None else {int(k): list(v) for k, v in ad.items()}
+    live0 = set(threading.enumerate())
+    try:
+        getattr(s, case['call'])(action, ad)
+        out = ['Returned']
+    except Exception as e:  # noqa
+        obj = e if case['call'] == 'sequential' else e.__cause__
+        out = ['Raised', errs[id(obj)][1] if id(obj) in errs else 'unexpected:' + repr(e)[:80]]
+    for t in set(threading.enumerate()) - live0:
+        t.join(3.0)
+    return {'calls': calls, 'outcome': out, 'insts': [m.inst for m in members], 'is_open': bool(s._is_open),
+            'links': [m.link for m in members]}
+
+
+def linkstate_term(case):
+    mem = members_of(case['uris'])
+    ad = case.get('argdict')
+    adt = 'None' if ad is None else '(Some [' + '; '.join('(%s, %s)' % (coqrun.z(int(u)), coqrun.zlist(a)) for u, a in ad.items()) + '])'
+    c = '(mk_cfg %s %s %s)' % (coqrun.zlist(case['uris']), adt, coqrun.zlist(case['failing']))
+    evs = ['SOpenOk'] + ['(%s %d%%nat)' % ('SLinkUp' if e[0] == 'up' else 'SLinkDown', mem.index(e[1])) for e in case['events']]
+    st = '(srun [%s])' % '; '.join(evs)
+    r = '(restrict %s (action_members %s %s))' % (c, c, st)
+    return ('(action_members %s %s, map (fun k => (inst %s k, match args %s k with Some a => a | None => [] end)) (seq 0 (n %s)), '
+            'fst (sequential %s), snd (sequential %s), map (fun k => snd %s k) (seq 0 (n %s)))' % (c, st, r, r, r, r, r, st, c))
+
+
+def compare_linkstate(case, impl, mv):
+    m = _norm(mv)
+    members, all_calls, seq_calls, seq_out, flags = m[0], m[1], m[2], m[3], m[4]
+    mem = members_of(case['uris'])
+    fail_pos = [i for i, u in enumerate(mem) if u in case['failing']]
+    if flags != impl['links']:
+        return ('linkstate: harness and model disagree about the link flags', flags, impl['links'])
+    if case['call'] == 'sequential':
+        so = _norm_outcome(seq_out)
+        want = [[list(x) for x in seq_calls], ['Raised', so[1][1]] if so[0] == 'Raised' else so]
+        got = [impl['calls'], impl['outcome']]
+    else:
+        want = [sorted([list(x) for x in all_calls]),
+                ['Returned'] if (case['call'] == 'parallel' or not [k for k in fail_pos if k in members]) else ['Raised', 'one of %s' % fail_pos]]
+        o = impl['outcome']
+        got = [sorted(impl['calls']), ['Raised', 'one of %s' % fail_pos] if (o[0] == 'Raised' and o[1] in fail_pos) else o]
+    if want != got:
+        return ('linkstate: action after link loss differs (%s)' % case['call'], want, got)
+    return None
+
+
+def check_linkstate(case, impl=None):
+    """Property text: the action runs exactly once per Crazyflie of the swarm with its own arguments, whatever the state
+    of the members' links; parallel_safe raises iff an action raised."""
+    impl = impl or run_linkstate(case)
+    mem = members_of(case['uris'])
+    ad = case.get('argdict')
+    last = {}
+    for i, u in enumerate(case['uris']):
+        last[u] = i
+    want = []
+    first_fail = None
+    for k, u in enumerate(mem):
+        want.append([last[u], [] if not ad else list(ad[u] if u in ad else ad[str(u)])])
+        if u in case['failing'] and first_fail is None:
+            first_fail = k
+            if case['call'] == 'sequential':
+                break
+    got = impl['calls'] if case['call'] == 'sequential' else sorted(impl['calls'])
+    if got != (want if case['call'] == 'sequential' else sorted(want)):
+        return {'class': 'action_not_run_once_per_member', 'case': case, 'expected': want, 'observed': impl['calls'],
+                'detail': 'after open_links and the loss of some links (%s) the action must still run once for every member'
+                          % case['events']}
+    fail_pos = [i for i, u in enumerate(mem) if u in case['failing']]
+    o = impl['outcome']
+    if case['call'] == 'parallel' or not fail_pos:
+        if o != ['Returned']:
+            return {'class': 'raises_without_failure' if not fail_pos else 'parallel_raises', 'case': case, 'expected': ['Returned'], 'observed': o}
+    elif o[0] != 'Raised' or (o[1] != first_fail if case['call'] == 'sequential' else o[1] not in fail_pos):
+        return {'class': 'failure_not_raised', 'case': case, 'expected': ['Raised', fail_pos], 'observed': o,
+                'detail': 'parallel_safe raises iff at least one action raised'}
+    return None
+
+
 # ------------------------------------------------------------------------------------------ tie
 def _corpus_cases():
     import glob
@@ -1379,7 +1527,7 @@ def _corpus_cases():
 
 
 def _gen_cases(ctx, rng):
-    cases = [c for c in _corpus_cases() if c.get('op') not in ('history', 'process', 'lifecycle', 'helpers') and c.get('kind') != 'hold']
+    cases = [c for c in _corpus_cases() if c.get('op') not in ('history', 'process', 'lifecycle', 'helpers', 'linkstate') and c.get('kind') != 'hold']
     # all failing subsets for small swarms, several schedules each
     for n in range(0, ctx.scale(4, 5)):
         for sub in itertools.chain.from_iterable(itertools.combinations(range(n), r) for r in range(n + 1)):
@@ -1519,6 +1667,25 @@ def tie(ctx):
         dist['helper_cases'] += 1
         nontriv += 1 if len(c['uris']) >= 2 else 0
         d = compare_helpers(c, impl, mv)
+        if d:
+            n_bad += 1
+            if len(dis) < 12:
+                dis.append({'what': d[0], 'case': c, 'model': d[1], 'impl': d[2]})
+    # ---- per-member link state: open_links, some links go down, then an action (ungated)
+    kcases = [c for c in _corpus_cases() if c.get('op') == 'linkstate'] + \
+        [gen_linkstate(rng, n=(i % 4) + 1 if i < 24 else None) for i in range(ctx.scale(250, 3000))]
+    kmodel = coqrun.eval_terms(HEADER, [linkstate_term(c) for c in kcases], tag='c19k', shard=100)
+    dist['linkstate_cases'] = 0
+    dist['linkstate_members_down'] = 0
+    for c, mv in zip(kcases, kmodel):
+        if n_bad >= 6:
+            break
+        impl = run_linkstate(c)
+        n_run += 1
+        dist['linkstate_cases'] += 1
+        dist['linkstate_members_down'] += impl['links'].count(False)
+        nontriv += 1 if False in impl['links'] and len(c['uris']) >= 2 else 0
+        d = compare_linkstate(c, impl, mv)
         if d:
             n_bad += 1
             if len(dis) < 12:
@@ -1741,7 +1908,7 @@ def oracle(ctx, deep=False):
         if f and sum(1 for x in fails if x['class'] == f['class']) < 2:
             fails.append(f)
 
-    cases = [c for c in _corpus_cases() if c.get('op') not in ('history', 'process', 'lifecycle', 'helpers') and c.get('kind') != 'hold']
+    cases = [c for c in _corpus_cases() if c.get('op') not in ('history', 'process', 'lifecycle', 'helpers', 'linkstate') and c.get('kind') != 'hold']
     for size in range(0, ctx.scale(4, 5)):
         for sub in itertools.chain.from_iterable(itertools.combinations(range(size), r) for r in range(size + 1)):
             for op in ('parallel_safe', 'parallel_safe', 'parallel', 'sequential', 'open_links', 'open_twice', 'par_then_par'):
@@ -1769,6 +1936,10 @@ def oracle(ctx, deep=False):
             [gen_helpers(rng) for i in range(ctx.scale(100, 1500) * (3 if deep else 1))]:
         n += 1
         add(check_helpers(c))
+    for c in [c for c in _corpus_cases() if c.get('op') == 'linkstate'] + \
+            [gen_linkstate(rng, n=(i % 4) + 1 if i < 24 else None) for i in range(ctx.scale(250, 3000) * (3 if deep else 1))]:
+        n += 1
+        add(check_linkstate(c))
     # the join: members whose action is held back must hold back the caller
     for i in range(ctx.scale(10, 60)):
         size = rng.randrange(2, 6)
@@ -1800,6 +1971,8 @@ def replay(payload, ctx):
         return check_history(c)
     if c.get('op') == 'process':
         return check_process(c)
+    if c.get('op') == 'linkstate':
+        return check_linkstate(c)
     if c.get('op') == 'lifecycle':
         return check_lifecycle(c)
     if c.get('op') == 'helpers':
